@@ -6,7 +6,11 @@
 //          fractions, exponents in both cases and signs, integer parts of up to 25 digits, unique keys, empty containers,
 //          occasional deep nesting): all three entry points x {default, strict} must return the reference value; the
 //          reader entry point must stop exactly after the value when a non-extending byte follows; string entry
-//          points accept trailing whitespace and reject any other trailing byte.
+//          points accept trailing whitespace and reject any other trailing byte. One document in four is also followed
+//          by a "comment tail" (1..3 complete // comment lines, each ended by \n, \r or \r\n, with whitespace between
+//          them): the string entry points accept document + tail with the reference value in default mode and reject it
+//          in strict mode (comments are an extension), and reject document + tail + non-whitespace in both modes - a
+//          comment runs to the end of its line only, so what stands after the line break is trailing data.
 //   ext    a standard document with ONE documented extension injected (trailing comma, hex integer, n/t/f, // comment):
 //          default mode returns the documented meaning (= the value of the original document), strict mode throws
 //          parse_error/out_of_range.
@@ -303,7 +307,44 @@ static const std::string kNonExtending = std::string(" ,]}:\"\n#@!z[{-/*") + std
 // first trailing byte for the string entry points: not whitespace, not the start of a comment, does not extend a numeral
 static const std::string kGarbageFirst = std::string(",]}:\"#@!z[{-*") + std::string(1, '\0') + "\xff\x80";
 
-// case: s = [leading ws, core, trailing ws, reader suffix, garbage]
+// Whitespace and 1..3 COMPLETE // comment lines (every comment is ended by a line break), possibly followed by more whitespace.
+static std::string gen_comment_tail() {
+  std::string r;
+  size_t lines = 1 + vg::below(3);
+  for (size_t k = 0; k < lines; k++) {
+    r += gen_ws();
+    r += "//" + vg::bytes_from("abc \t\"[]{},:/\\019*#-ntfx", vg::chance(1, 4) ? 0 : vg::below(12));
+    r += vg::pick<std::string>({"\n", "\n", "\r", "\r\n"});
+  }
+  return r + gen_ws();
+}
+
+// true when t is whitespace and // comments only, holds at least one comment, and every comment is ended by a line break
+static bool is_complete_comment_tail(const std::string& t) {
+  size_t k = 0, comments = 0;
+  for (;;) {
+    while (k < t.size() && c5::is_ws(t[k])) k++;
+    if (k == t.size()) return comments > 0;
+    if (k + 1 >= t.size() || t[k] != '/' || t[k + 1] != '/') return false;
+    while (k < t.size() && t[k] != '\n' && t[k] != '\r') k++;
+    if (k == t.size()) return false; // unterminated
+    comments++;
+  }
+}
+
+// what stands after the comment tail: a byte string, a numeral / literal / second document (after a line break nothing extends anything)
+static std::string gen_after_comment() {
+  switch (vg::below(4)) {
+    case 0: return render(gen_doc_tokens(1 + static_cast<int>(vg::below(4)), 2));
+    case 1: return vg::pick<std::string>({"2", "0", "-1", "null", "true", "x", "}", "]", ",", "\"a\"", "[]", "{}", "/", "/ /", "/*", "*/", "#", "\\"});
+    default: {
+      std::string g(1, kGarbageFirst[vg::below(kGarbageFirst.size())]);
+      return g + vg::bytes(vg::below(4));
+    }
+  }
+}
+
+// case: s = [leading ws, core, trailing ws, reader suffix, garbage (, comment tail, data after the comment tail)]
 static Case gen_doc() {
   std::string core;
   if (vg::chance(1, 40)) core = gen_nested(vg::chance(1, 3) ? 500 : 2 + vg::below(499));
@@ -313,7 +354,9 @@ static Case gen_doc() {
   suffix += vg::bytes(vg::below(5));
   std::string garbage(1, kGarbageFirst[vg::below(kGarbageFirst.size())]);
   garbage += vg::bytes(vg::below(4));
-  return Case("doc").S(gen_ws()).S(core).S(gen_ws()).S(suffix).S(garbage);
+  Case c = Case("doc").S(gen_ws()).S(core).S(gen_ws()).S(suffix).S(garbage);
+  if (vg::chance(1, 4)) c.S(gen_comment_tail()).S(gen_after_comment());
+  return c;
 }
 
 // number of structural characters [ ] { } , : inside the strings of a document (the reference's extents tell the strings apart)
@@ -332,6 +375,38 @@ static void note_shape(const rj::Result& r) {
   if (r.has_frac_or_exp) x.cls("doc:fraction-or-exponent");
   if (r.has_escape) x.cls("doc:escape");
   x.cls(r.max_depth >= 100 ? "doc:depth>=100" : r.max_depth >= 2 ? "doc:depth 2-99" : "doc:depth<2");
+}
+
+// doc + comment tail (+ data after it) through the string entry points
+static void run_doc_comment_tail(const Case& c, const std::string& doc, const rj::Result& ref) {
+  const std::string &ctail = c.str(5), &after = c.str(6);
+  if (!is_complete_comment_tail(ctail)) throw std::logic_error("doc case: the comment tail is not whitespace + complete // comment lines");
+  if (after.empty() || c5::is_ws(after[0]) || (after.size() > 1 && after[0] == '/' && after[1] == '/')) throw std::logic_error("doc case: bad data after the comment tail");
+  std::string with_tail = doc + ctail, with_data = with_tail + after;
+  size_t tail_at = doc.size() > 60 ? doc.size() - 60 : 0; // messages show the end of the document
+  for (int strict = 0; strict < 2; strict++) {
+    const char* mode = strict ? "strict" : "default";
+    for (c5::Entry en : {c5::PTR, c5::STRING}) {
+      const char* ename = en == c5::PTR ? "ptr,size" : "string";
+      c5::Outcome o = c5::run_parse(with_tail, strict, en);
+      VCHECK(o.kind != c5::Outcome::OTHER, "exception-type:" + o.exc_type, o.what);
+      if (strict) {
+        VCHECK(o.threw(), "ext-strict-accepts:comment:trailing", "strict mode parse(", ename, ") accepts the // comment after the document: ...", c5::clip(with_tail.substr(tail_at), 200));
+      } else {
+        VCHECK(!o.threw(), "trailing-comment-rejected", "default mode parse(", ename, ") rejects (", o.what, ") a document followed by whitespace and // comment lines only: ...", c5::clip(with_tail.substr(tail_at), 200));
+        jt::Diff d = jt::diff(o.value, ref.value, jt::NUMERIC_REL_1E9);
+        VCHECK(d.none(), cat("ext-default-meaning:comment:trailing:", d.cls), "default mode value differs at ", d.text, " when // comment lines follow the document: ...", c5::clip(with_tail.substr(tail_at), 200));
+      }
+      o = c5::run_parse(with_data, strict, en);
+      VCHECK(o.kind != c5::Outcome::OTHER, "exception-type:" + o.exc_type, o.what);
+      VCHECK(o.threw(), cat("trailing-garbage-accepted:after-comment:", mode), "parse(", ename, ") accepted the data ", c5::clip(after, 40), " that stands after the line break ending the // comment: ...", c5::clip(with_data.substr(tail_at), 200));
+    }
+  }
+  // the shared oracle sees the same texts (entry-point agreement, reader extent, its own model of the trailing region)
+  c5::Finding f = c5::check_text(with_data, nullptr, false);
+  VCHECK(f.none(), f.sig, f.msg);
+  ctx().cls("doc:followed by // comment lines (then by data)");
+  ctx().count(2);
 }
 
 static void run_doc(const Case& c) {
@@ -365,6 +440,7 @@ static void run_doc(const Case& c) {
       VCHECK(o.threw(), cat("trailing-garbage-accepted:", mode), "parse(", en == c5::PTR ? "ptr,size" : "string", ") accepted ", c5::clip(t));
     }
   }
+  if (c.s.size() > 5) run_doc_comment_tail(c, doc, ref);
   note_shape(ref);
   if (doc.size() > 1000) {
     size_t st = structural_in_strings(doc, ref);
@@ -662,7 +738,7 @@ static const char* kSeedDocs[] = {
     "[true]", "[1e2,1e-2]", "{\"a\":\"//\"}", "[\"0x10\"]", "123e20", "[-1,-1.0]", "[1e300,10e18]", "{\"a\":[],\"b\":{}}"};
 
 // texts that are NOT standard documents (documented extensions, near misses): bases for the edit enumeration only
-static const char* kExtraEditSeeds[] = {"{1:2}", "[1,]", "{\"one\":1,}", "0x123", "-0xC8E", "[n,t,f]", "// c\nnull", "[\n// c\n]", "false // c", "{} x", "\"\\x41\"",
+static const char* kExtraEditSeeds[] = {"{1:2}", "[1,]", "{\"one\":1,}", "0x123", "-0xC8E", "[n,t,f]", "// c\nnull", "[\n// c\n]", "false // c", "1 // c\n", "[] //c\r//d\n ", "{} x", "\"\\x41\"",
     "{[]:1}", "{null:0}", "-", "+5", "007", "1.", "[1 2]", "{\"a\" 1}", "nul", "[\"a\":1]"};
 
 static void enum_edit(Enum& e) {
@@ -693,6 +769,18 @@ static void enum_doc(Enum& e) {
     core = core.substr(b, en - b);
     for (const char* suf : {" x", ",", "]", "}", "#", ":"})
       e.exec(Case("doc").S(" \n").S(core).S("\t ").S(suf).S("@"));
+  }
+  // the fixed documents followed by complete // comment lines, then by data after the line break
+  for (size_t k = 0; k < n && !e.stop; k++) {
+    if (!e.mine(idx++)) continue;
+    std::string core = kSeedDocs[k];
+    size_t b = 0, en = core.size();
+    while (b < en && c5::is_ws(core[b])) b++;
+    while (en > b && c5::is_ws(core[en - 1])) en--;
+    core = core.substr(b, en - b);
+    for (const char* tail : {"//\n", " // c\n", "\n// a [\r\n\t//b\r ", "//c\r"})
+      for (const char* after : {"@", "2", "{}", "]", "/", "null"})
+        e.exec(Case("doc").S("").S(core).S(tail[0] == ' ' ? "" : " ").S(",").S("@").S(tail).S(after));
   }
   // nesting up to the stated bound
   for (size_t depth : {100, 499, 500}) {
@@ -745,7 +833,7 @@ static void enum_doc(Enum& e) {
           e.exec(Case("doc").S(" ").S("{" + first + ":" + bulk + "}").S("").S("]").S("}"));
         }
     }
-  e.complete("fixed documents x 6 suffixes; bracket nesting 100, 499 and 500; un-normalised numerals 1e-36..1e37 (mantissa) x 11 value scales 1e-290..1e290; "
+  e.complete("fixed documents x 6 suffixes; fixed documents x 4 // comment tails x 6 kinds of data after the comment's line break; bracket nesting 100, 499 and 500; un-normalised numerals 1e-36..1e37 (mantissa) x 11 value scales 1e-290..1e290; "
              "exponents spelled with 0..20 leading zeros x 7 values x 3 signs x 5 mantissas; two-string documents: 5 string endings x bulk structural strings "
              "(4 themes, 10 elements, 300/1200/2500 elements)");
 }
